@@ -113,4 +113,31 @@ PROPS = {
         explanation="Lean theorems over histories with disconnect/resume events (projection to C01, store invariant, resume resends stored chunks with original number and content, delivery); tie = lock-step differential run with injected transport failures + ledger oracle",
         assumptions=["the broker resumes the stream (success); refused resumes are C05", "the broker acknowledges every (re)transmitted chunk eventually"],
     ),
+    'C09': dict(
+        lean_modules=['Iscp.Props.C09'],
+        gen=['Guarded'],
+        harnesses=[dict(name='race', pkg='./search/race', kind='race', build_flags=['-race'], workloads=['wire', 'wireclose', 'rec', 'multi', 'conn'], ms_quick=1500, ms_thorough=15000)],
+        trusted_base=COMMON_TB + [
+            "the extractor go/extract (go/packages + x/tools/go/cfg + the curated tables in go/extract/guards.go: guarded fields, helpers entered with a lock held, happens-before exemptions each with a justification)",
+            "modelled, not verified: sync.Mutex/RWMutex semantics (Iscp.Lock.TStep), lock identity by declaring type and field (instance-insensitive)",
+            "NOT decided by proof: fields ordered by happens-before (Gen.Guarded.exemptedSites), atomics, third-party code, completeness of the curated field list: the race-detector workloads search there and can only find, not exclude",
+        ],
+        rule="proof part: one kernel-checked obligation per function that touches a guarded field (regenerated every run); search part: race-detector workloads wire (streams opened/closed while another carries chunks and the connection closes), wireclose (Close exactly while an open response is dispatched), rec (redial budget exhausted under concurrent writers), multi (poller vs traffic), conn (real Conn: writers, readers, metadata, calls, repeated transport kills with resume, Close); distinct = workload",
+        explanation="Lean: soundness of the lock-discipline checker and of lock discipline itself (mutual exclusion => no two conflicting accesses co-enabled) + regenerated per-function obligations over every access site of 45 guarded fields; race detector as failing-input search",
+        assumptions=["the curated guard table names the intended guard of each shared field", "happens-before exemptions hold as justified"],
+    ),
+    'C08': dict(
+        lean_modules=['Iscp.Props.C08Lock'],
+        gen=['LockCFG'],
+        harnesses=[dict(name='wire', pkg='./corr/wire', topic='wire', n_quick=60, n_thorough=400, thorough_seeds=2, timeout=1500),
+                   dict(name='block', pkg='./corr/block', topic=None, n_quick=1, n_thorough=3, thorough_seeds=2, timeout=900)],
+        trusted_base=COMMON_TB + [
+            "the extractor go/extract (go/packages + x/tools/go/cfg): CFG of every function and function literal that calls Lock/RLock/Unlock/RUnlock/Cond.Wait in iscp/, wire/, transport/, encoding/, internal/",
+            "modelled, not verified: Go's defer semantics as 'deferred unlocks run at every exit', lock identity by declaring type and field, panics as exits",
+            "NOT decided by proof: that every blocking wait has a bounded waker (layer 2/3): measured by the block harness under a watchdog with the adversary {silent, misaddress, disconnect} per API scenario",
+        ],
+        rule="proof part: one kernel-checked obligation per locking function (regenerated); measured part: wire harness (dispatch keeps running, watchdog turns a stuck call into a violation) and block harness: every blocking public call (open up/down, write, flush, read, read metadata, metadata, call, call-and-wait-reply, stream Close, connection Close) against a broker that stays silent / answers another id / disconnects mid-exchange, each required to return within its bound (context, close timeout) plus slack, followed by a fresh call that must succeed",
+        explanation="Lean: soundness of the lock certificate checker + regenerated per-function obligations (every path releases what it takes); harness: API-level bounds under an adversarial broker",
+        assumptions=["scheduling slack 1.5 s on top of each bound in the measured part"],
+    ),
 }
